@@ -1,4 +1,5 @@
 import Srctools.Proofs.Tok
+import Srctools.Proofs.TokSeq
 import Srctools.Gen.Tok
 /-!
 # C02 — `escape_text` and the tokenizer are exact inverses on every string
@@ -118,5 +119,65 @@ example : run Gen.Tok.tables {} (fun c => [c])
 
 example : escOK { Gen.Tok.tables with
     escapes := Gen.Tok.tables.escapes.filter (·.2 != '\r') } = false := by decide +kernel
+
+/-- **A whole line, any number of strings.** For every list of strings, each preceded by any blank
+padding (spaces / tabs, possibly none), the text `pad₁ "esc(s₁)" pad₂ "esc(s₂)" …` tokenizes to
+exactly one STRING token per string, in order, with value `sᵢ`, and then EOF — no bound on the
+number of strings, their lengths or the padding.  This is the quantifier's "embedded at any
+position of a larger KeyValues/VMF line" for the lines the writers emit (`\t"key" "value"`). -/
+theorem C02_sequence (T : Tables) (h : escOK T = true) (hw : wsOK T = true) (o : Opts)
+    (ho : o.allowEscapes = true) (fold : Char → List Char) (ml : Bool)
+    (items : List (List Char × List Char)) (hb : ∀ p ∈ items, isBlank p.1 = true) :
+    run T o fold (quotedSeq T ml items)
+      = { toks := seqObs T ml 1 items, err := none } := by
+  unfold run
+  have := runAux_quotedSeq T h hw o ho fold ml items hb ((quotedSeq T ml items).length + 2) {} []
+    (by
+      have : items.length ≤ (quotedSeq T ml items).length := by
+        clear hb
+        induction items with
+        | nil => simp
+        | cons p ps ih =>
+          obtain ⟨ws, s⟩ := p
+          simp only [quotedSeq, List.length_cons, List.length_append]
+          omega
+      omega)
+  simpa using this
+
+/-- The values read back are exactly the strings written (projection of `C02_sequence`). -/
+theorem C02_sequence_values (T : Tables) (ml : Bool) (line : Nat)
+    (items : List (List Char × List Char)) :
+    ((seqObs T ml line items).map (·.value)).dropLast = items.map (·.2) ∧
+    ((seqObs T ml line items).map (·.kind)).dropLast = items.map (fun _ => Kind.string.code) := by
+  induction items generalizing line with
+  | nil => simp [seqObs]
+  | cons p ps ih =>
+    obtain ⟨ws, s⟩ := p
+    have hne : seqObs T ml (line + (escapeText T ml s).count '\n') ps ≠ [] := by
+      cases ps with
+      | nil => simp [seqObs]
+      | cons q qs => obtain ⟨a, b⟩ := q; simp [seqObs]
+    have h1 := (ih (line + (escapeText T ml s).count '\n')).1
+    have h2 := (ih (line + (escapeText T ml s).count '\n')).2
+    simp only [seqObs, List.map_cons]
+    rw [List.dropLast_cons_of_ne_nil (by simpa using hne),
+        List.dropLast_cons_of_ne_nil (by simpa using hne)]
+    simp [h1, h2]
+
+theorem C02_gen_wsOK : wsOK Gen.Tok.tables = true := by decide
+
+/-- `C02_sequence` at the tables of the current source. -/
+theorem C02_sequence_current (o : Opts) (ho : o.allowEscapes = true) (fold : Char → List Char)
+    (ml : Bool) (items : List (List Char × List Char)) (hb : ∀ p ∈ items, isBlank p.1 = true) :
+    run Gen.Tok.tables o fold (quotedSeq Gen.Tok.tables ml items)
+      = { toks := seqObs Gen.Tok.tables ml 1 items, err := none } :=
+  C02_sequence _ C02_gen_ok C02_gen_wsOK o ho fold ml items hb
+
+/-- Non-vacuity of `C02_sequence`: a VMF-style line with a tab, a key, a space and a value using
+every special character evaluates as stated. -/
+example : run Gen.Tok.tables {} (fun c => [c])
+    (quotedSeq Gen.Tok.tables false [(['\t'], ['k', '"']), ([' '], C02_sample), ([], [])])
+    = { toks := [⟨1, ['k', '"'], 1⟩, ⟨1, C02_sample, 1⟩, ⟨1, [], 1⟩, ⟨0, [], 1⟩], err := none } := by
+  decide +kernel
 
 end Tok
